@@ -172,6 +172,8 @@ static int worker (const struct nsim_family *fam, uint64_t base, int64_t first, 
 		if (!v.empty ()) fwrite (v.data (), sizeof (uint64_t), v.size (), hf);
 		fclose (hf);
 	}
+	snprintf (path, sizeof path, "%s/w%d.%lld.sites", outdir, wid, (long long) first);
+	rt_dump_sites (path);
 	snprintf (path, sizeof path, "%s/w%d.next", outdir, wid);
 	FILE *nf = fopen (path, "w");
 	if (nf) { fprintf (nf, "%lld\n", (long long) idx); fclose (nf); }
